@@ -31,7 +31,10 @@ func GetIndexLetters(document *gedcom.Document, livingVisibility LivingVisibilit
 		case LivingVisibilityShow, LivingVisibilityPlaceholder:
 			letterMap[getIndexLetter(individual)] = true
 		case LivingVisibilityHide:
-			// nothing
+			// Living individuals are not listed at all, everybody else is.
+			if !individual.IsLiving() {
+				letterMap[getIndexLetter(individual)] = true
+			}
 		}
 	}
 
